@@ -29,7 +29,7 @@ INVS = "LTypeOK OneStepPerFiringExecution StepsExact RuleOrderKept"
 
 
 def cfg_mc(n, l, export):
-    return ('SPECIFICATION LSpec\nCONSTANTS\n  LeafVariants = {"ins0", "log"}\n  MaxStmts = %d\n  MaxScript = %d\n'
+    return ('SPECIFICATION LSpec\nCONSTANTS\n  LeafVariants = {"ins0", "log", "seed"}\n  MaxStmts = %d\n  MaxScript = %d\n'
             '  MaxFault = 0\nINVARIANT %s\nCHECK_DEADLOCK FALSE\n' % (n, l, "PrintCase" if export else INVS))
 
 
@@ -69,6 +69,10 @@ def run_ser(ctx):
     # configurations differing only in an identifier type parameter, incl. user-defined ones with colliding short names
     for ident in ["default", "mahf::Global", "mahf::A", "mahf::B", "user::A", "user::nested::A", "user::Global"]:
         sp.append({"run": len(sp), "template": "ident", "params": {"id": ident}, "n": 1, "seed": 0, "eval": "seq",
+                   "prob": {"kind": "real", "f": 0, "dim": 2, "lo": -1.0, "hi": 1.0}})
+    # configurations that differ only in the logical structure of a condition (and / or / not, nesting, operand order)
+    for form in ["a", "!a", "!!a", "b", "a&b", "a|b", "b&a", "(a|b)&c", "(a&b)&c", "a&(b|c)", "(a&b)|c", "!(a&b)", "!a&b"]:
+        sp.append({"run": len(sp), "template": "cond", "params": {"c": form}, "n": 1, "seed": 0, "eval": "seq",
                    "prob": {"kind": "real", "f": 0, "dim": 2, "lo": -1.0, "hi": 1.0}})
     spath = os.path.join(ctx.work, "ser.specs.ndjson")
     with open(spath, "w") as f:
